@@ -113,10 +113,7 @@ struct ExpField {
 }
 
 fn expected_fields(tr: &Tr, def: &Def, f: &Fields) -> Vec<ExpField> {
-    let r = Render {
-        prog: tr.prog,
-        params: &def.params,
-    };
+    let r = tr.prog.render_for(def);
     f.list()
         .iter()
         .filter(|fd| !matches!(fd.ty, Ty::Phantom(_)))
